@@ -12,9 +12,19 @@ vars == <<k, l, verdict>>
 S(s) == {s[i] : i \in 1..Len(s)}
 T3(x) == {<<t[1], t[2], t[3]>> : t \in S(x)}
 
+(* graphs too large for the search over all bijections come with a witness: the renaming by which the harness made h from g (a sequence of
+   <<from, to>> pairs); the spec checks that it is an injective renaming that carries g onto h - then the graphs ARE isomorphic *)
+WitF(w) == [x \in {w[i][1] : i \in 1..Len(w)} |-> w[CHOOSE i \in 1..Len(w) : w[i][1] = x][2]]
+IsoByWitness(g, h, w) == /\ Cardinality({w[i][2] : i \in 1..Len(w)}) = Len(w)
+                         /\ Cardinality({w[i][1] : i \in 1..Len(w)}) = Len(w)
+                         /\ Rename3(g, WitF(w)) = h
+
 Judge(e) ==
   IF "raise" \in DOMAIN e THEN "Raised"
-  ELSE CASE e.op = "iso" ->
+  ELSE CASE e.op = "iso" /\ "wit" \in DOMAIN e ->
+         IF ~IsoByWitness(T3(e.g), T3(e.h), e.wit) THEN "WitnessIsNoIsomorphism"       \* (a harness error, not rdflib's)
+         ELSE IF ~e.r THEN "IsoAgrees" ELSE IF ~e.r_eq THEN "IsoAgrees:to_isomorphic" ELSE "ok"
+    [] e.op = "iso" ->
          LET want == Iso(T3(e.g), T3(e.h)) IN
          IF e.r # want THEN "IsoAgrees" ELSE IF e.r_eq # want THEN "IsoAgrees:to_isomorphic" ELSE "ok"
     [] e.op = "canon" ->
